@@ -182,18 +182,39 @@ Definition dims_len (d : pos * pos) : N :=
   let cols := (snd (snd d) + 1) - snd (fst d) in
   N.min (rows * cols) U64MAX.
 
-Definition BOUNDS1 : list (N * option N) := [(129, None); (147, None)].
 Definition BOUNDS2 : list (N * option N) :=
   [(133, Some 134); (37, Some 38); (485, None); (390, Some 391)].
 
-(* XlsbCellsReader::new: skip to BrtWsDim (0x94), check_len(len, 16), read the dimensions from the
-   first 16 bytes of the buffer, skip to BrtBeginSheetData (0x91): (dimensions, rest of part) *)
+(* XlsbCellsReader::new after the fix "a worksheet part without the optional BrtWsDim record could
+   not be read": one scan up to BrtBeginSheetData (0x91).  The first BrtWsDim (0x94) met on the way
+   is length-checked and gives the dimensions; the Views / AC / ColInfos blocks are discarded up
+   to their closing record (the match of the code is find_bound BOUNDS2); everything else is
+   skipped.  (dimensions if any, rest of part) *)
+Fixpoint scan_header (fuel : nat) (s buf : list N) (dims : option (pos * pos))
+  : outcome (option (pos * pos) * list N) :=
+  match fuel with
+  | O => OutOfFuel
+  | S f =>
+      do ts <- read_type s;
+      do fb <- fill_buffer (snd ts) buf;
+      if fst ts =? 145 then Ok (dims, snd fb) else
+      if (fst ts =? 148) && (match dims with None => true | Some _ => false end) then
+        do _ <- check_len (fst (fst fb)) 16;
+        do d <- parse_dims (snd (fst fb));
+        scan_header f (snd fb) (snd (fst fb)) (Some d)
+      else
+      match find_bound BOUNDS2 (fst ts) with
+      | Some e =>
+          do sb <- skip_until f e (snd fb) (snd (fst fb));
+          scan_header f (snd sb) (fst sb) dims
+      | None => scan_header f (snd fb) (snd (fst fb)) dims
+      end
+  end.
+
+(* dimensions.unwrap_or_default() *)
 Definition reader_new (fuel : nat) (s : list N) : outcome (pos * pos * list N) :=
-  do a <- next_skip_blocks fuel 148 BOUNDS1 s [];
-  do _ <- check_len (fst (fst a)) 16;
-  do dims <- parse_dims (snd (fst a));
-  do b <- next_skip_blocks fuel 145 BOUNDS2 (snd a) (snd (fst a));
-  Ok (dims, snd b).
+  do r <- scan_header fuel s [] None;
+  Ok (match fst r with Some d => d | None => ((0, 0), (0, 0)) end, snd r).
 
 (* cell_format: iStyleRef is the 24-bit integer at bytes 4..7 of the cell *)
 Definition cell_fmt (formats : list cellfmt) (buf : list N) : option cellfmt :=
@@ -495,8 +516,8 @@ Definition dim_body (d : pos * pos) (tail : list N) : list N :=
   le_bytes 4 (snd (fst d)) ++ le_bytes 4 (snd (snd d)) ++ tail.
 
 Record layout : Type := mkLayout {
-  l_pre1 : list rawrec;                                (* BrtBeginSheet, BrtWsProp, ... *)
-  l_dim : option (frm * (pos * pos) * list N);         (* BrtWsDim: declared (start, end), tail *)
+  l_pre1 : list hrec;                                  (* BrtBeginSheet, BrtWsProp, ... *)
+  l_dim : option (frm * (pos * pos) * list N);         (* BrtWsDim (optional): declared (start, end), tail *)
   l_pre2 : list hrec;                                  (* views, format info, column infos, ... *)
   l_begin : frm * list N;                              (* BrtBeginSheetData *)
   l_items : list (frm * item);
@@ -506,7 +527,7 @@ Record layout : Type := mkLayout {
 
 (* E *)
 Definition encode_sheet (c : layout) : list N :=
-  flat_map enc_raw (l_pre1 c) ++
+  flat_map enc_hrec (l_pre1 c) ++
   match l_dim c with
   | Some (fr, d, tail) => frame fr 148 (dim_body d tail)
   | None => []
@@ -600,7 +621,9 @@ Fixpoint starts_with_row (items : list (frm * item)) : bool :=
   | (_, ICell _ _ _ _ _) :: _ => false
   end.
 
-Definition wf_pre1 (r : rawrec) : bool := wf_raw r && negb (snd (fst r) =? 148).
+(* not a BrtWsDim at the top level (inside a block anything goes: it is discarded) *)
+Definition no_dim (h : hrec) : bool :=
+  match h with HRec r => negb (snd (fst r) =? 148) | HBlock _ _ _ => true end.
 
 Definition wf_hrec (h : hrec) : bool :=
   match h with
@@ -625,8 +648,10 @@ Definition wf_dim (x : frm * (pos * pos) * list N) : bool :=
   (snd (fst d) <=? snd (snd d)) && (snd (snd d) <? 16384).
 
 Definition wf_layout (c : layout) : bool :=
-  forallb wf_pre1 (l_pre1 c) &&
-  match l_dim c with Some x => wf_dim x | None => true end &&
+  forallb wf_hrec (l_pre1 c) && forallb no_dim (l_pre1 c) &&
+  (* the first BrtWsDim of the part is the one that counts: none before l_dim; none at all when
+     the layout has no l_dim *)
+  match l_dim c with Some x => wf_dim x | None => forallb no_dim (l_pre2 c) end &&
   forallb wf_hrec (l_pre2 c) &&
   wf_frame (fst (l_begin c)) 145 (snd (l_begin c)) &&
   forallb wf_item (l_items c) && starts_with_row (l_items c) &&
@@ -641,11 +666,12 @@ Fixpoint sorted_by_rowb (cs : list cellr) : bool :=
                  end
   end.
 
-(* classes of legal layouts on which the current code is known to violate the property:
-   1 = the part has no BrtWsDim record (optional in the MS-XLSB grammar of a worksheet part):
-       XlsbCellsReader::new searches for it through the whole part and fails at its end *)
-Definition known_C03 (c : layout) : option N :=
-  match l_dim c with None => Some 1 | Some _ => None end.
+(* classes of legal layouts on which the current code is known to violate the property: none.
+   (The one class of round 1 — a part without the optional BrtWsDim record could not be read —
+   was repaired in /repo by the commit "fix: an xlsb worksheet part without the optional BrtWsDim
+   record could not be read"; the model follows the repaired code.)  Kept so that the check's
+   plumbing (model|spec|known) stays uniform. *)
+Definition known_C03 (c : layout) : option N := None.
 
 (* legal c L : c is a legal layout of the logical sheet L, rows in non-decreasing order
    (MS-XLSB: the BrtRowHdr rows increase; Range::from_sparse takes the first and the last
